@@ -1092,6 +1092,9 @@ class Translator:
                     return '((void)0)'
                 if ct in self.tm.kinds:
                     return '%s = %s' % (A(0), A(1))
+                if ct in SCALAR_C:
+                    # a proxy / value type that the unit maps onto a scalar (std::vector<bool>::reference -> _Bool)
+                    return '%s = %s' % (A(0), A(1))
             if name == 'operator<<' and fam in ('std::basic_ostream', 'std::ostream', 'std::basic_ofstream', 'std::basic_fstream',
                                                 'std::basic_ostringstream', 'std::basic_stringstream') and len(args) == 2:
                 return self.stream_put(n, args)
